@@ -450,12 +450,57 @@ impl DtlsTransport {
 }
 
 impl DtlsInner {
-    async fn handle_retransmit(&self, ctx: &HandshakeContext, _is_client: bool) {
+    /// The last flight, encoded again for retransmission. RFC 6347 §4.2.4: a retransmitted
+    /// handshake message travels in a new record with a fresh record sequence number - a
+    /// byte-identical copy is discarded by the peer's replay window. Plaintext records are
+    /// renumbered; the Finished is protected again, the number being part of nonce and AAD.
+    fn last_flight_for_retransmit(
+        &self,
+        ctx: &mut HandshakeContext,
+        is_client: bool,
+    ) -> Option<Vec<Vec<u8>>> {
+        let mut records = ctx.last_flight_records.clone()?;
+        for buf in records.iter_mut() {
+            let mut record = DtlsRecord::decode(&mut Bytes::copy_from_slice(buf)).ok()??;
+            // Once the handshake has completed, the current epoch's numbers come from
+            // `write_seq` (shared with `send` and close_notify), before that from `ctx`.
+            let handshake_done =
+                ctx.epoch > 0 && self.write_epoch.load(Ordering::SeqCst) == ctx.epoch;
+            let mut seq = if record.epoch < ctx.epoch {
+                ctx.prev_epoch_sequence_number += 1;
+                ctx.prev_epoch_sequence_number - 1
+            } else if handshake_done {
+                self.write_seq.fetch_add(1, Ordering::SeqCst)
+            } else {
+                ctx.sequence_number += 1;
+                ctx.sequence_number - 1
+            };
+            if record.epoch == 0 {
+                record.sequence_number = seq;
+                let mut out = BytesMut::with_capacity(buf.len());
+                record.encode(&mut out);
+                *buf = out.to_vec();
+            } else {
+                *buf = self
+                    .build_handshake_record(
+                        ctx.last_flight_finished.clone()?,
+                        record.epoch,
+                        &mut seq,
+                        ctx.session_keys.as_ref(),
+                        is_client,
+                    )
+                    .ok()?;
+            }
+        }
+        Some(records)
+    }
+
+    async fn handle_retransmit(&self, ctx: &mut HandshakeContext, is_client: bool) {
         if *self.state.lock() != DtlsState::Handshaking {
             return;
         }
-        if let Some(records) = &ctx.last_flight_records
-            && let Err(e) = self.conn.send_dtls_record_batch(records).await
+        if let Some(records) = self.last_flight_for_retransmit(ctx, is_client)
+            && let Err(e) = self.conn.send_dtls_record_batch(&records).await
         {
             let msg = format!("{:?}", e);
             if msg.contains("No selected socket") || msg.contains("Remote address not set") {
@@ -721,8 +766,9 @@ impl DtlsInner {
                                 let connected =
                                     matches!(*self.state.lock(), DtlsState::Connected(..));
                                 if connected
-                                    && let Some(records) = &ctx.last_flight_records
-                                    && let Err(e) = self.conn.send_dtls_record_batch(records).await
+                                    && let Some(records) =
+                                        self.last_flight_for_retransmit(ctx, is_client)
+                                    && let Err(e) = self.conn.send_dtls_record_batch(&records).await
                                 {
                                     debug!("Failed to retransmit final flight: {}", e);
                                 }
@@ -923,8 +969,8 @@ impl DtlsInner {
         }
 
         if ctx.server_random.is_some() {
-            if let Some(records) = &ctx.last_flight_records
-                && let Err(e) = self.conn.send_dtls_record_batch(records).await
+            if let Some(records) = self.last_flight_for_retransmit(ctx, is_client)
+                && let Err(e) = self.conn.send_dtls_record_batch(&records).await
             {
                 if let Some(io_err) = e.downcast_ref::<std::io::Error>() {
                     match io_err.kind() {
@@ -1340,6 +1386,7 @@ impl DtlsInner {
             flight_records.push(buf.to_vec());
 
             ctx.epoch += 1;
+            ctx.prev_epoch_sequence_number = ctx.sequence_number + 1;
             ctx.sequence_number = 0;
 
             // Send Finished
@@ -1371,6 +1418,7 @@ impl DtlsInner {
             handshake_msg.encode(&mut buf);
             ctx.handshake_messages.extend_from_slice(&buf);
 
+            ctx.last_flight_finished = Some(handshake_msg.clone());
             flight_records.push(self.build_handshake_record(
                 handshake_msg,
                 ctx.epoch,
@@ -1727,6 +1775,7 @@ impl DtlsInner {
         flight_records.push(buf.to_vec());
 
         ctx.epoch += 1;
+        ctx.prev_epoch_sequence_number = ctx.sequence_number + 1;
         ctx.sequence_number = 0;
 
         // Send Finished
@@ -1751,6 +1800,7 @@ impl DtlsInner {
         handshake_msg.encode(&mut buf);
         ctx.handshake_messages.extend_from_slice(&buf);
 
+        ctx.last_flight_finished = Some(handshake_msg.clone());
         flight_records.push(self.build_handshake_record(
             handshake_msg,
             ctx.epoch,
@@ -1924,7 +1974,7 @@ impl DtlsInner {
                     ));
                 }
                 _ = retransmit_interval.tick() => {
-                    self.handle_retransmit(&ctx, is_client).await;
+                    self.handle_retransmit(&mut ctx, is_client).await;
                 }
                 packet = handshake_rx.recv() => {
                     let Some(packet) = packet else {
@@ -2256,6 +2306,9 @@ fn encrypt_record(
 
 struct HandshakeContext {
     sequence_number: u64,
+    /// Next record sequence number of the epoch before `epoch`: the plaintext records of
+    /// the final flight are still retransmitted in it after ChangeCipherSpec.
+    prev_epoch_sequence_number: u64,
     /// Outbound DTLS record epoch (write epoch).
     epoch: u16,
     /// Inbound DTLS record epoch (read epoch); advanced on peer ChangeCipherSpec only.
@@ -2270,6 +2323,9 @@ struct HandshakeContext {
     /// implementations (e.g. webrtc-dtls) continue from the HVR seq + 1.
     post_hvr: bool,
     last_flight_records: Option<Vec<Vec<u8>>>,
+    /// Our Finished in plaintext, so that a retransmission can protect it again under a
+    /// fresh record sequence number.
+    last_flight_finished: Option<HandshakeMessage>,
     incomplete_handshake: BytesMut,
     incomplete_msg_seq: u16,
     local_secret: Option<EphemeralSecret>,
@@ -2296,6 +2352,7 @@ impl HandshakeContext {
 
         Self {
             sequence_number: 0,
+            prev_epoch_sequence_number: 0,
             epoch: 0,
             read_epoch: 0,
             record_epoch: 0,
@@ -2303,6 +2360,7 @@ impl HandshakeContext {
             recv_message_seq: 0,
             post_hvr: false,
             last_flight_records: None,
+            last_flight_finished: None,
             incomplete_handshake: BytesMut::new(),
             incomplete_msg_seq: 0,
             local_secret: Some(local_secret),
